@@ -81,3 +81,16 @@ Proof.
   autounfold with gen; ops_R. unfold grid16, idx4, mink_outer_spec, mink_inner_spec, eta.
   cbn [v4nth v0 v1 v2 v3 Nat.eqb flat_map map app repeat]. list_eq deep.
 Qed.
+
+(* ... and on every path of set_Stokes (any input, zero intensity and |p| = I included), also on an
+   object that carried another mean before: nothing is left over from the previous state *)
+Lemma tie_reported_paths s0 s1 s2 s3 :
+  Forall (fun c : Prop * list R => fst c -> snd c =
+            [s0; s1; s2; s3] ++ grid16 (mink_outer_spec (mkV4 s0 s1 s2 s3) (mkV4 s0 s1 s2 s3))
+            ++ grid16 (mink_outer_spec (mkV4 s0 s1 s2 s3) (mkV4 s0 s1 s2 s3)) ++ repeat 0 16)
+         (reported_paths_cases (OO:=ROps) s0 s1 s2 s3).
+Proof.
+  autounfold with gen; ops_R. unfold grid16, idx4, mink_outer_spec, mink_inner_spec, eta.
+  cbn [v4nth v0 v1 v2 v3 Nat.eqb flat_map map app repeat].
+  repeat (apply Forall_cons; [ cbn [fst snd]; intros PC; list_eq deep | ]). apply Forall_nil.
+Qed.
